@@ -102,6 +102,10 @@ func (a *Array) MarshalJSONBuffer(dst []byte) ([]byte, error) {
 			return nil, err
 		}
 		if t == TypeNone {
+			if i.t == TagArrayEnd {
+				// No (remaining) elements: the closing tag has been consumed.
+				return append(dst, ']'), nil
+			}
 			break
 		}
 		dst, err = elem.MarshalJSONBuffer(dst)
